@@ -10,7 +10,9 @@ Property theorems only.  Vocabulary (`Conv/Encoding.lean`):
 * `wellTyped w T x`    `x` is a value of `T` at every depth (exact classes; instances, also those met at `Any` /
                        untyped positions, hold values of their fields' types; TypedDict payloads have declared keys
                        only);
-* `T.supU gen`, `w.SupU gen`   the documented type support of the converter class (`gen = true`: `Converter`);
+* `T.supU gen`, `w.SupU gen`   the documented type support of the converter class (`gen = true`: `Converter`); a
+                       `BaseConverter` has no NamedTuple hook and leaves the instance as it is: NamedTuple classes are in
+                       its support only with fields of primitive types (`World.SupU.ntPrim`);
 * `w.tdAcyclicB`       no TypedDict lies on a reference cycle of the class table.  The hypothesis is not used by the
                        proofs: it marks the region in which the model is validated against the code — for a
                        self-referential TypedDict cattrs unstructures the nested levels by run-time class (recorded
@@ -18,7 +20,10 @@ Property theorems only.  Vocabulary (`Conv/Encoding.lean`):
                        in scope;
 * `EncAs w cfg T x y`  the documented encoding table, one inductive rule per clause of the statement
                        (classes → dict by field name / tuple in field order, enums → values, sequences → lists,
-                       heterogeneous tuples → tuples, sets → sets, mappings → dicts with encoded keys and values,
+                       heterogeneous and named tuples → tuples (`EncAs.ntG`: item-wise by the declared field types;
+                       the pass-through "a named tuple that needs no conversion may pass through as the tuple it is"
+                       is not observable here -- the instance IS that tuple), sets → sets, mappings → dicts with encoded
+                       keys and values,
                        Optional/NewType/Annotated/Final/alias → underlying, `Any`/untyped → by run-time class `EncRt`,
                        unknown classes unchanged).
 
@@ -80,7 +85,7 @@ def c03Value : Obj :=
 
 example : wellTyped c03World (.td 1) c03Value = true := by
   simp [c03Value, c03World, wellTyped, wellTypedTD, wellTypedL, wellTypedF, wellTypedAny, wellTypedAnyL, findField,
-    World.fields, World.members, Field.key, Obj.pyEq, Obj.num2?, SK.structTo]
+    World.fields, World.members, Field.key, Obj.pyEq, Obj.num2?, SK.structTo, World.isNT]
 example : (Ty.td 1).supU true = true := by simp [Ty.supU]
 example : c03World.tdAcyclicB = true := by decide
 example : c03World.SupU true := by
@@ -94,6 +99,32 @@ example : c03World.SupU true := by
     match e with
     | 0 => simp [c03World, World.members] at hv; rcases hv with rfl | rfl <;> rfl
     | n + 1 => simp [c03World, World.members] at hv
+  · intro hg; cases hg
+
+/-! NamedTuples: `class P(NamedTuple): k: K0; e: E0` inside a list, met by declared type and (second component) at an
+`Any` position by run-time class; the `Converter` emits tuples whatever the strategy. -/
+def c03WorldN : World :=
+  { classes :=
+      [ { kind := .attrs, frozen := false, fields :=
+            [ { name := "a", alias := "a", ty := some .int, dflt := .none, init := true, required := true } ] },
+        { kind := .namedtuple, frozen := true, fields :=
+            [ { name := "k", alias := "k", ty := some (.cls 0), dflt := .none, init := true, required := true },
+              { name := "e", alias := "e", ty := some (.enum 0), dflt := .none, init := true, required := true } ] } ],
+    enums := [[.int 1, .str "x"]] }
+
+def c03ValueN : Obj :=
+  .coll .tuple [.coll .list [.inst 1 [("k", .inst 0 [("a", .int 3)]), ("e", .enumM 0 1)]],
+                .inst 1 [("k", .inst 0 [("a", .int 4)]), ("e", .enumM 0 0)]]
+
+example : wellTyped c03WorldN (.tupleHet [.coll .list (.nt 1), .any]) c03ValueN = true := by
+  simp [c03ValueN, c03WorldN, wellTyped, wellTypedT, wellTypedL, wellTypedF, wellTypedAny, World.fields, World.members,
+    World.isNT, World.ntTys, Field.tyA, vals, SK.structTo]
+example : c03WorldN.SupU true := World.supUB_sound _ _ (by decide)
+example : convUnstructure c03WorldN ⟨true, false, false, false⟩ (.tupleHet [.coll .list (.nt 1), .any]) c03ValueN
+    = .coll .tuple [.coll .list [.coll .tuple [.dict [(.str "a", .int 3)], .str "x"]],
+                    .coll .tuple [.dict [(.str "a", .int 4)], .int 1]] := by
+  simp [convUnstructure, Cfg.core, c03ValueN, c03WorldN, un, unT, unL, unAny, unFields, emits, World.fields, World.ntTys,
+    World.isNT, Field.tyA, vals, Field.key, enumValue, World.members, mkColl, SK.unstructTo, CK.isSet]
 end Examples
 
 end CattrsModel
